@@ -10,11 +10,6 @@ from ..math import vec3, quat
 # Type aliases for clarity
 SphericalPolygon = List[Cartesian]
 
-# Pre-allocated vectors for midpoints. midA is the midpoint opposite the vertex A
-_mid_a = vec3.create()
-_mid_b = vec3.create()
-_mid_c = vec3.create()
-_center = vec3.create()
 
 # Use Cartesian system for all calculations for greater accuracy
 # Using [x, y, z] gives equal precision in all directions, unlike spherical coordinates
@@ -151,10 +146,10 @@ class SphericalPolygonShape:
         Returns:
             Area of the spherical triangle in radians
         """
-        # Calculate midpoints
-        vec3.lerp(_mid_a, v2, v3, 0.5)
-        vec3.lerp(_mid_b, v3, v1, 0.5)
-        vec3.lerp(_mid_c, v1, v2, 0.5)
+        # Calculate midpoints. midA is the midpoint opposite the vertex A
+        _mid_a = vec3.lerp(vec3.create(), v2, v3, 0.5)
+        _mid_b = vec3.lerp(vec3.create(), v3, v1, 0.5)
+        _mid_c = vec3.lerp(vec3.create(), v1, v2, 0.5)
         vec3.normalize(_mid_a, _mid_a)
         vec3.normalize(_mid_b, _mid_b)
         vec3.normalize(_mid_c, _mid_c)
@@ -195,7 +190,7 @@ class SphericalPolygonShape:
             return self._area
 
         # Calculate center of polygon
-        vec3.set(_center, 0, 0, 0)
+        _center = vec3.create()
         for vertex in self.vertices:
             vec3.add(_center, _center, vertex)
         vec3.normalize(_center, _center)
